@@ -605,9 +605,20 @@ where
         &mut self,
         diff: &Diff<T>,
     ) -> Result<(), Self::Error> {
-        self.insert_records(diff.patch.records(), true).await?;
+        // Verify against the checkpoint before touching
+        // the existing events so a refused request leaves
+        // the event log as it was
+        let mut tree = CommitTree::new();
+        let mut hashes = diff
+            .patch
+            .records()
+            .iter()
+            .map(|r| *r.commit().as_ref())
+            .collect::<Vec<_>>();
+        tree.append(&mut hashes);
+        tree.commit();
 
-        let computed = self.tree().head()?;
+        let computed = tree.head()?;
         let verified = computed == diff.checkpoint;
         if !verified {
             return Err(Error::CheckpointVerification {
@@ -616,6 +627,8 @@ where
             }
             .into());
         }
+
+        self.insert_records(diff.patch.records(), true).await?;
 
         Ok(())
     }
